@@ -15,7 +15,7 @@ each, the list of its control-flow PATHS as sequences of abstract events:
                          self._f_ = ..., self._f_ op= ..., self._f_[...] = ..., del self._f_[...], self._f_.fill(...),
                          setattr/delattr(self, ...), self.__dict__[...]
     EInvFull             self._cache_.clear()
-    EInvVals             self._new_values_()
+    (self._new_values_() is an ordinary ECall: what it invalidates is read from its own body)
     EInvKey k            del self._cache_[k]
     ECall n              a call of another analysed method on the receiver (self.n(...), super(...).n(...), C.n(self, ...))
     ECallFailed n        the same call inside `try:` on the path through an `except` handler
@@ -158,9 +158,6 @@ def call_events(stmt):
                                         and recv.func.id == 'super')
             explicit = (isinstance(recv, ast.Name) and recv.id[:1].isupper() and n.args and is_self(n.args[0]))
             if on_self or explicit:
-                if name == '_new_values_':
-                    ev.append(('EInvVals',))
-                    continue
                 if name == '__init__' and SUBJ[0] != 'self':
                     ev.append(('EInvFull',))
                     ev += [('EMut', x) for x in sorted(set(FIELDS.values()))]
